@@ -13,6 +13,7 @@ import struct
 from fractions import Fraction as F
 
 import measured
+from impl import parse_mag  # noqa: E402
 from measured import Level, Logarithm, LogarithmicUnit, Prefix, Quantity, Unit
 
 from .convcommon import ConvContext, classify, ftok
@@ -159,17 +160,34 @@ def generate(ctx, n_ops):
             return ctx.nq - 1
         return None
 
+    sibling = None
     while emitted < n_ops:
         btok, base, pfx = rng.choice(FAMILIES)
         ref_unit = Unit._by_name[rng.choice(REFS)]
         # other units for the measured quantity: only pairs in the planner's clean fragment (the
         # reference conversion inside level() is C04's subject, not C18's)
         same = [u for u in ctx.bydim.get(ref_unit.dimension, []) if classify(u, ref_unit) is None]
-        ru = yield from build([(ref_unit, 1)], ctx.si_prefix() if rng.random() < 0.5 else None)
-        if ru is None:
-            continue
-        rq = yield from qnew(rng.choice(["i:1", "i:20", ftok(0.5), "i:1000", ftok(2e-5), ftok(1e-12), ftok(1e-15), ftok(3e-10),
-                                         ftok(1.0000000001), ftok(1e12)]), ru)
+        if sibling is None:
+            ru = yield from build([(ref_unit, 1)], ctx.si_prefix() if rng.random() < 0.5 else None)
+            if ru is None:
+                continue
+        if sibling is not None:
+            # a reference that differs from the previous one by less than 1e-9 (absolute) but by much more than
+            # rounding relative to itself: a different logarithmic unit, whatever a key does with the magnitude
+            btok, base, pfx, ref_unit, ru, v = sibling
+            same = [u for u in ctx.bydim.get(ref_unit.dimension, []) if classify(u, ref_unit) is None]
+            sibling = None
+            rq = yield from qnew(ftok(v + 2e-10), ru)
+        else:
+            mtok = rng.choice(["i:1", "i:20", ftok(0.5), "i:1000", ftok(2e-5), ftok(1e-12), ftok(1e-15), ftok(3e-10),
+                               ftok(1.0000000001), ftok(1e12)])
+            rq = yield from qnew(mtok, ru)
+            try:
+                v = float(parse_mag(mtok))
+            except Exception:  # noqa: BLE001
+                v = None
+            if v is not None and v <= 1.0 and rng.random() < 0.35:
+                sibling = (btok, base, pfx, ref_unit, ru, v)
         if rq is None:
             continue
         res = yield "X\tlunit\t%s\tp%d:%d\tq%d" % (btok, pfx[0], pfx[1], rq)
